@@ -401,9 +401,10 @@ static const char *GROUP[] = {"data_convert", "data_convert", "value_convert", "
 static const int NCXX = 5, CXX0 = 4;
 struct VJob {
 	int entry; char s; conv_fn direct; void *src; void *dst[NDST];
+	bool nullsrc;          // pass no source address (the converters document this as the zero value)
 	mpt::metatype *mt;     // C++ entries: the wrapper object holding a copy of the source value
 	Cnt c;
-	VJob(int e, char st) : entry(e), s(st), direct(direct_fn(st)), mt(0)
+	VJob(int e, char st) : entry(e), s(st), direct(direct_fn(st)), nullsrc(false), mt(0)
 	{
 		src = malloc(ti(s).size);
 		for (int i = 0; i < NDST; ++i) dst[i] = malloc(ti(DST[i]).size);
@@ -412,6 +413,14 @@ struct VJob {
 };
 static inline int do_call(VJob &J, char t, void *dest)
 {
+	if (J.nullsrc) {
+		switch (J.entry) {
+		case 0: return J.direct(0, (mpt::type_t) t, dest);
+		case 1: { mpt::data_converter_t f = mpt::mpt_data_converter((mpt::type_t) J.s); if (!f) return -9999; return f(0, (mpt::type_t) t, dest); }
+		case 2: { mpt::value v; v._addr = 0; v._type = (mpt::type_t) J.s; return mpt::mpt_value_convert(&v, (mpt::type_t) t, dest); }
+		default: { OneIt it; it.v._addr = 0; it.v._type = (mpt::type_t) J.s; return mpt::mpt_iterator_consume(&it, (mpt::type_t) t, dest); }
+		}
+	}
 	switch (J.entry) {
 	case 0: return J.direct(J.src, (mpt::type_t) t, dest);
 	case 1: { mpt::data_converter_t f = mpt::mpt_data_converter((mpt::type_t) J.s); if (!f) return -9999; return f(J.src, (mpt::type_t) t, dest); }
@@ -430,6 +439,7 @@ static const char *vclass(ld S, const TI &T, bool &rep)
 	if (T.kind == KF) {
 		if (std::isinf(S)) { rep = true; return "inf"; }
 		if (fabsl(S) > fmax_of(T)) return "beyond-finite-range";
+		if (S != 0 && fabsl(S) < ldexpl(1, T.qmin)) return "below-smallest-denormal";
 		ld back = T.id == 'f' ? (ld) (float) S : (T.id == 'd' ? (ld) (double) S : S);
 		rep = back == S;
 		return rep ? "exact" : "needs-rounding";
@@ -449,6 +459,7 @@ static int denotes(ld S, ld got, const TI &T)
 	if (got == S) return 1;
 	if (T.kind != KF || std::isinf(S) || std::isinf(got)) return 0;
 	if (S != 0 && got != 0 && (S < 0) != (got < 0)) return 0;
+	if (S != 0 && got == 0) return 0;      // a non-zero number flushed to zero is not a rounded neighbour: all precision is gone
 	uint64_t M; int q; fmt_split(T, fabsl(got), M, q);
 	ld lo = M ? ldexpl((ld) (M - 1), q) : 0, hi = ldexpl((ld) M + 1, q);
 	return (fabsl(S) >= lo && fabsl(S) <= hi) ? 2 : 0;
@@ -462,8 +473,9 @@ static void check_value(Run &r, VJob &J, const Val &v, int tix, const Vec &vec)
 	memset(dst, PAT, T.size);
 	unsigned char pat[16]; memset(pat, PAT, 16);
 	bool rep; const char *cls = vclass(num, T, rep);
+	if (J.nullsrc) cls = "no-data-address";
 	std::string sigbase = std::string(GROUP[J.entry]) + "|" + J.s + "->" + t + "|" + cls + "|";
-	auto desc = [&]() { return fmt("%s: source '%c' = %s (bytes %s) -> target '%c'", ENTRY[J.entry], J.s, ldstr(num).c_str(), hex(v.b, S.size == 16 ? 10 : S.size).c_str(), t); };
+	auto desc = [&]() { return J.nullsrc ? fmt("%s: source '%c' without data address (stands for 0) -> target '%c'", ENTRY[J.entry], J.s, t) : fmt("%s: source '%c' = %s (bytes %s) -> target '%c'", ENTRY[J.entry], J.s, ldstr(num).c_str(), hex(v.b, S.size == 16 ? 10 : S.size).c_str(), t); };
 	++J.c.cases; ++r.states; r.transitions += 2; ++J.c.cls[cls];
 	if (!rep) ++J.c.nontrivial;
 	asan_error();
@@ -833,6 +845,7 @@ static void check_text(Run &r, TJob &J, const std::string &str, const Vec &vec)
 			uint64_t M; int q; fmt_split(T, fabsl(g), M, q);
 			int c0 = cmp_mag(f.d, M, q);
 			if (c0 == 0) ok = 1;
+			else if (!M) ok = 0;      // non-zero numeral delivered as zero
 			else if (c0 < 0) ok = (M && cmp_mag(f.d, M - 1, q) >= 0) ? 2 : 0;
 			else if (M == UINT64_MAX) ok = cmp_mag(f.d, (uint64_t) 1 << 63, (long) q + 1) <= 0 ? 2 : 0;
 			else ok = cmp_mag(f.d, M + 1, q) <= 0 ? 2 : 0;
@@ -849,20 +862,24 @@ static void check_text(Run &r, TJob &J, const std::string &str, const Vec &vec)
 // hold a number denoted by SOME substring of the text (any start, any end, base 0 or 10; for 'c' some
 // character of the text) -- a wrapped / saturated / uninitialised value is denoted by none; a refusal
 // leaves the destination untouched; a fresh iterator asked in query mode gives the same first verdict.
-static bool denoted_by_substring(const std::string &str, const TI &T, char dst, const unsigned char *got)
+static bool denoted_by_substring(const std::string &str, const TI &T, char dst, const unsigned char *got, const char *seps)
 {
 	size_t len = str.size();
 	if (dst == 'c') return memchr(str.data(), (char) got[0], len) != 0;
+	// an element is a maximal piece between separators: the numeral must start and end at one
+	auto issep = [&](char c) { return sp(c) || (c && strchr(seps, c)); };
+	std::vector<char> okstart(len + 1, 0), okend(len + 1, 0);
+	for (size_t i = 0; i <= len; ++i) { okstart[i] = i == 0 || issep(str[i - 1]); okend[i] = i == len || issep(str[i]); }
 	if (T.kind != KF) {
 		i128 g = readint(dst, got);
-		for (size_t i = 0; i < len; ++i) for (size_t j = len; j > i; --j) for (int base = 0; base <= 10; base += 10) {
+		for (size_t i = 0; i < len; ++i) if (okstart[i]) for (size_t j = len; j > i; --j) if (okend[j]) for (int base = 0; base <= 10; base += 10) {
 			IntNum n = parse_int(str.data() + i, j - i, base);
 			if (n.valid && !n.over && n.mag <= ((u128) 1 << 100) && (n.neg ? -(i128) n.mag : (i128) n.mag) == g) return true;
 		}
 		return false;
 	}
 	ld g = readnum(dst, got);
-	for (size_t i = 0; i < len; ++i) for (size_t j = len; j > i; --j) {
+	for (size_t i = 0; i < len; ++i) if (okstart[i]) for (size_t j = len; j > i; --j) if (okend[j]) {
 		FltNum f = parse_flt(str.data() + i, j - i);
 		if (!f.valid) continue;
 		if (f.d.special == 2) { if (g != g) return true; continue; }
@@ -872,7 +889,7 @@ static bool denoted_by_substring(const std::string &str, const TI &T, char dst, 
 		if (!f.d.mant.zero() && g != 0 && (g < 0) != f.d.neg) continue;
 		uint64_t M; int q; fmt_split(T, fabsl(g), M, q);
 		int c0 = cmp_mag(f.d, M, q);
-		bool ok = c0 == 0 || (c0 < 0 ? (M && cmp_mag(f.d, M - 1, q) >= 0) : (M == UINT64_MAX ? cmp_mag(f.d, (uint64_t) 1 << 63, (long) q + 1) <= 0 : cmp_mag(f.d, M + 1, q) <= 0));
+		bool ok = c0 == 0 || (!M ? false : c0 < 0 ? (cmp_mag(f.d, M - 1, q) >= 0) : (M == UINT64_MAX ? cmp_mag(f.d, (uint64_t) 1 << 63, (long) q + 1) <= 0 : cmp_mag(f.d, M + 1, q) <= 0));
 		if (ok) return true;
 	}
 	return false;
@@ -935,9 +952,9 @@ static void check_iter_text(Run &r, TJob &J, const std::string &str, const Vec &
 					else if (!elem) { if (in_rep) ++J.c.refused_rep; else ++J.c.refused_unrep; }
 					break;
 				}
-				if (!denoted_by_substring(str, T, J.dst, got)) {
+				if (!denoted_by_substring(str, T, J.dst, got, J.fn == F_ITERSTR ? " ,;/:" : "")) {
 					failsig = "wrong-value";
-					fail = fmt(": element %d accepted (ret %d) but the delivered value %s (bytes %s)%s is not denoted by any part of the text", (int) elem, ret,
+					fail = fmt(": element %d accepted (ret %d) but the delivered value %s (bytes %s)%s is not the number denoted by any complete (separator delimited) element of the text", (int) elem, ret,
 						T.kind == KF ? ldstr(readnum(J.dst, got)).c_str() : i128str(readint(J.dst, got)).c_str(), hex(got, T.size == 16 ? 10 : T.size).c_str(), memcmp(got, pat, T.size) ? "" : " = untouched");
 					break;
 				}
@@ -1049,6 +1066,8 @@ static void body(Run &r, JobCtx &jc, Ctx &x)
 		if (!tix && !blk) r.sample(fmt("%s: source '%c' x %zu values (first bytes %s, last %s) x targets %s x {perform, query}", ENTRY[J.entry], J.s, jc.vals.size(), hex(jc.vals.front().b, ti(J.s).size).c_str(), hex(jc.vals.back().b, ti(J.s).size).c_str(), DST));
 		Vec v = x.taken; v.push_back(0);
 		for (size_t i = lo; i < hi; ++i) { v[2] = i - lo + 1; check_value(r, J, jc.vals[i], tix, v); }
+		// one more letter: a value without data address (stands for zero); reported with the vector of its block
+		if (!blk) { Val z; memset(z.b, 0, 16); J.nullsrc = true; Vec vz = x.taken; check_value(r, J, z, tix, vz); J.nullsrc = false; }
 	} else if (jc.kind == "sweep") {
 		VJob &J = *jc.vj;
 		uint64_t per = ((uint64_t) 1 << 32) / SLICES, nblocks = per / SWBLOCK;
